@@ -21,16 +21,35 @@ static void diag_check(void) {
   fflush(diag); long cur = ftell(diag);
   overwritten = cur != diag_pos; diag_pos = cur;
 }
+/* Slot mode `P` (pre-filled; additive to the protocol of Proto.lean, used by the C03 search only): the call is handed a slot that
+   ALREADY holds an error.  "No call ever stores an error over an existing one": afterwards the slot must hold the very same error
+   object (same pointer, code, message).  The answer is `ok <value> P<1|0>:<number of overwrite diagnostics>`: the diagnostic is what the
+   library is expected to print when a failing call finds the slot occupied, so it is reported, not turned into `abort overwrite`. */
+void xrl_set_error_literal(xrl_error **err, xrl_error_code code, const char *message);
+static char cur_mode = 'E'; static xrl_error *pre = NULL; static long pre_pos = 0;
 static double pd(const char *s) { uint64_t b = strtoull(s + 1, NULL, 16); double d; memcpy(&d, &b, 8); return d; }
-static void pr_d(double d) { uint64_t b; memcpy(&b, &d, 8); diag_check(); if (overwritten) printf("abort overwrite"); else printf("ok x%016llx", (unsigned long long)b); }
-static void pr_i(int v) { diag_check(); if (overwritten) printf("abort overwrite"); else printf("ok %d", v); }
+static void pr_d(double d) { uint64_t b; memcpy(&b, &d, 8); diag_check(); if (overwritten && cur_mode != 'P') printf("abort overwrite"); else printf("ok x%016llx", (unsigned long long)b); }
+static void pr_i(int v) { diag_check(); if (overwritten && cur_mode != 'P') printf("abort overwrite"); else printf("ok %d", v); }
 static void pr_slot(char mode, xrl_error *e) {
+  if (mode == 'P') {
+    int same = e != NULL && e == pre && (int)e->code == (int)XRL_ERROR_RUNTIME && e->message && !strcmp(e->message, "first error");
+    int nd = 0;
+    if (diag && diag_pos > pre_pos) {       /* count the diagnostics printed during the call */
+      static char buf[1 << 14]; long n = diag_pos - pre_pos; if (n > (long)sizeof buf - 1) n = sizeof buf - 1;
+      fseek(diag, pre_pos, SEEK_SET); n = (long)fread(buf, 1, (size_t)n, diag); buf[n > 0 ? n : 0] = 0; fseek(diag, diag_pos, SEEK_SET);
+      for (const char *q = buf; (q = strstr(q, "xrl_error set over the top")) != NULL; q++) nd++;
+    }
+    printf(" P%d:%d\n", same, nd);
+    if (e) xrl_error_free(e);
+    overwritten = 0; cur_mode = 'E'; pre = NULL; return;
+  }
   if (overwritten) { printf("\n"); if (e) xrl_error_free(e); overwritten = 0; return; }
   if (mode == 'N') printf(" N\n");
   else if (e == NULL) printf(" E\n");
   else { printf(" F%d:%s\n", (int)e->code, e->message ? e->message : "(null)"); xrl_error_free(e); }
 }
-#define SLOT(t) char mode = (t)[0]; xrl_error *e = NULL; xrl_error **ep = (mode == 'N') ? NULL : &e
+#define SLOT(t) char mode = (t)[0]; xrl_error *e = NULL; xrl_error **ep = (mode == 'N') ? NULL : &e; cur_mode = mode; \
+  if (mode == 'P') { xrl_set_error_literal(&e, XRL_ERROR_RUNTIME, "first error"); pre = e; diag_check(); pre_pos = diag_pos; }
 
 #include "cdrv_gen.inc"
 #ifdef CDRV_EXTRA
